@@ -4,39 +4,40 @@
   helping, `insert_at_position` with `renew_insert_position`, `try_remove_at`, `find_fastpath` + slow path; tower
   heights from ANY generator, `c_nMaxHeight` a parameter, `Cfg.markTest`: the fast path with / without the test of the
   level-0 mark of the node it is about to report).
+  Property theorems only; the invariant and the proofs live in `Algo/SkipList/{Inv,Eff,Upd,StepBase,StepTrav,StepMisc,
+  StepCas,Reach,Lin,Level0}.lean`.
 
-  WHAT IS PROVED HERE
-    * The code BEFORE the repair b95a3c3 (`markTest := false`) is NOT linearizable:
-      `C15_skiplist_not_linearizable_without_mark_test` exhibits a run of the machine — 3 threads, one key, all towers
-      of height 1, every operation completed — whose history is proved not linearizable; the unrepaired code produced
-      exactly this history (harness client `tree`, variant `iskipset_hp_named`, seed 5, case 1526, `--keys 2`: replayed
-      by the machine with 0 divergences).  The two ingredients, each harmless alone:
-        - `try_remove_at`: when the CAS that marks level 0 fails on an already MARKED word, the erase answers "not
-          found" at once ("erase contention") — although the node is still linked and the winner has not returned;
-        - `find_fastpath` compared the key of `pCur` and answered "found" without looking at `pCur`'s own mark — so it
-          found a logically deleted node as long as it was physically linked.
-      A thread that lost the erase race and then looked the key up saw `erase k → 0` followed by `find k → found`.
-    * The REPAIRED code (`markTest := true`, the default; what `cdsdriver replay skiplist` checks traces against): the
-      same schedule continues into the slow path, which helps to unlink the node and answers "not found"; the history
-      is linearizable (`C15_repaired_run`).  Step level, for every state (`Algo/SkipList/Frozen.lean`):
-      `fastpath_found_step` (the fast path answers "found" only by the load of an UNMARKED `pCur->next(0)`),
-      `marked_frozen_step` (a marked tower word is never changed again, but for the inserter's own plain stores),
-      `mark0_set_step` (level 0 is marked only by the marking CAS of the one erase that then answers `[1, val]`).
-    * Runs: two racing inserts of different heights with `renew_insert_position`.
+  PROVED for the REPAIRED code (`markTest = true`, /repo b95a3c3; what `cdsdriver replay skiplist` checks traces
+  against), for ALL schedules, any number of threads, any keys, any tower heights, any `c_nMaxHeight ≥ 1`:
+    * `C15_skiplist_linearizable` (+ `_complete_runs`, `_no_effect_pending`): every history is linearizable to the
+      sequential map, in the form of `C13_michael_linearizable`.  Linearization points: the level-0 CAS (insert), the
+      level-0 marking CAS (erase), the load that reads an UNMARKED word of an item with the key (key found; on the slow
+      path it is tentative until `pPred->next(lvl)` is validated, and withdrawn otherwise — hindsight, as for
+      MichaelList), the validated level-0 load of `pPred->next(0)` (key absent), and — new — a HELPED point: an erase
+      that loses the race for the level-0 mark answers "not found" (`erase contention`) although the item may be
+      unlinked and the key inserted again before the loser runs; it is linearized right behind the winner's marking
+      CAS, in the same step (`Lin.helped`).
+    * `C15_skiplist_invariant` and its readings: level 0 is a chain from the head, STRICTLY sorted (no key twice); every
+      tower word on every level holds null or a published item (linked on level 0 or marked there) that is tall enough;
+      an item marked on level 0 is marked on all its upper levels; erase once (`C15_skiplist_mark_once`).
+  PROVED for the code BEFORE the repair (`markTest := false`): it is NOT linearizable
+  (`C15_skiplist_not_linearizable_without_mark_test`): a thread that loses the erase race and then looks the key up
+  gets `erase k → 0` followed by `find k → found`; the unrepaired tree produced exactly this history (harness client
+  `tree`, variant `iskipset_hp_named`, seed 5, case 1526, `--keys 2`).
 
-  WHAT IS NOT PROVED: `C15_skiplist_linearizable` for all schedules of the repaired machine.  With the mark test every
-  answer has a linearization point of its own inside the operation (insert: the level-0 CAS; erase → found: the
-  level-0 marking CAS; erase → 0 by contention: the failed marking CAS, the node is marked; find → found: the `qChk`
-  load; every "not found" / "exists": the validated level-0 load, as in `C13_michael_linearizable`), so the proof is the
-  one of `Algo/Michael/Lin.lean` on level 0 plus the inductive invariant that the upper levels only ever hold pointers
-  to linked-or-marked nodes with larger keys.  That invariant (`SkipList.invB`: every level sorted, a sub-list of the
-  level below at ALL times, level-0 mark ⇒ all upper marks, quiescent ⇒ no marked node) is CHECKED on every state of
-  every replayed trace, not proved inductive.
+  NOT proved (checked on every state of every replayed trace by `SkipList.invB`, and by `./check C18` on quiescent
+  snapshots): that every UPPER level is sorted and a sub-list of the level below.  Linearizability does not need it
+  (a traversal compares keys itself before it advances, so the upper levels may point at any published item); a proof
+  needs the top-down unlinking discipline of the counter `m_nUnlink`, which the invariant here does not track.
 
-  Tie to the real code: `cdsdriver replay skiplist` on traces of the variant `iskipset_hp_named` (`fastmark=0` in the
-  header selects the machine without the mark test, for traces of a tree before b95a3c3).
+  Assumption of the model: garbage-collected heap (a node is not reused while a thread may hold a pointer to it) — what
+  the hazard pointers provide (C01/C02).  Tie to the real code: `cdsdriver replay skiplist` on traces of the variant
+  `iskipset_hp_named` (`fastmark=0` in the header selects the machine without the mark test).
 -/
 import CdsVerif.Algo.SkipList.Abs
+import CdsVerif.Algo.SkipList.Lin
+import CdsVerif.Algo.SkipList.Frozen
+import CdsVerif.Algo.SkipList.Level0
 namespace CdsVerif.Props.C15SkipList
 open CdsVerif.Machine CdsVerif.Lin CdsVerif.Spec CdsVerif.Algo
 
@@ -163,6 +164,92 @@ example : ((SkipList.model cfgR).run (SkipList.init cfgR) goodSched).map (fun r 
           (1, .ev ⟨"ld", "h.1", "null", ""⟩),
           (1, .ev ⟨"ld", "h.0", "n1.0", ""⟩),
           (1, .ev ⟨"ld", "h.0", "n1.0", ""⟩)] := by decide +kernel
+
+
+/-! ### The repaired code: linearizability and the invariant, for all schedules -/
+
+/-- **Linearizability of the lock-free skip list** (repaired fast path), general form (Herlihy–Wing with completion
+    of pending operations), for EVERY configuration with `c_nMaxHeight ≥ 1` (any tower-height generator), EVERY
+    schedule, any number of threads and any keys: the history of the completed operations — extended by response
+    records for pending operations that have already passed their definitive linearization point (successful inserts
+    and erases inside `insert_at_position` / `try_remove_at`; at most one per thread), all other pending operations
+    being dropped — is linearizable to the sequential map. -/
+theorem C15_skiplist_linearizable (c : SkipList.Cfg) (hc : 0 < c.maxH) (hmt : c.markTest = true)
+    (sched : List (Tid × Act)) (s : SkipList.St) (os : List (Tid × Obs))
+    (h : (SkipList.model c).run (SkipList.init c) sched = some (s, os)) :
+    ∃ extra : List (OpRec GOp GRet),
+      (∀ e ∈ extra, SkipList.pendingOf os e.tid = some (e.op, e.inv) ∧ e.res = os.length ∧
+          SkipList.postRet s.val (s.pc e.tid) = some e.ret) ∧
+      extra.Pairwise (fun a b => a.tid ≠ b.tid) ∧
+      Linearizable map (SkipList.historyOf os ++ extra) :=
+  SkipList.skiplist_linearizable hc hmt sched s os h
+
+/-- Runs in which every invoked operation has returned: the history is linearizable as it is.  (For
+    `markTest := false` this very statement is refuted by `C15_skiplist_not_linearizable_without_mark_test`.) -/
+theorem C15_skiplist_linearizable_complete_runs (c : SkipList.Cfg) (hc : 0 < c.maxH) (hmt : c.markTest = true)
+    (sched : List (Tid × Act)) (s : SkipList.St) (os : List (Tid × Obs))
+    (h : (SkipList.model c).run (SkipList.init c) sched = some (s, os)) (hq : ∀ t, s.pc t = .idle) :
+    Linearizable map (SkipList.historyOf os) :=
+  SkipList.skiplist_linearizable_complete_runs hc hmt sched s os h hq
+
+/-- Runs at whose end no thread is between its definitive linearization point and its return. -/
+theorem C15_skiplist_linearizable_no_effect_pending (c : SkipList.Cfg) (hc : 0 < c.maxH) (hmt : c.markTest = true)
+    (sched : List (Tid × Act)) (s : SkipList.St) (os : List (Tid × Obs))
+    (h : (SkipList.model c).run (SkipList.init c) sched = some (s, os))
+    (hq : ∀ t, SkipList.postRet s.val (s.pc t) = none) : Linearizable map (SkipList.historyOf os) :=
+  SkipList.skiplist_linearizable_no_effect_pending hc hmt sched s os h hq
+
+/-- The harness configuration is an instance. -/
+example (sched : List (Tid × Act)) (s : SkipList.St) (os : List (Tid × Obs))
+    (h : (SkipList.model cfgR).run (SkipList.init cfgR) sched = some (s, os)) (hq : ∀ t, s.pc t = .idle) :
+    Linearizable map (SkipList.historyOf os) :=
+  C15_skiplist_linearizable_complete_runs cfgR (by decide) rfl sched s os h hq
+
+/-- **The invariant holds in every reachable state** (`SkipList.SInvL`: global part `g`, per-thread part `thr`, and
+    ownership of the private items). -/
+theorem C15_skiplist_invariant (c : SkipList.Cfg) (hc : 0 < c.maxH) (hmt : c.markTest = true)
+    (sched : List (Tid × Act)) (s : SkipList.St) (os : List (Tid × Obs))
+    (h : (SkipList.model c).run (SkipList.init c) sched = some (s, os)) : ∃ L, SkipList.SInvL c s L :=
+  SkipList.sinv_run hc hmt sched s os h
+
+/-- Readings of the invariant.  In every reachable state there is a list `L = 0 :: …` (the head, then the items linked
+    on level 0) such that: `L` is the level-0 chain from the head; the keys along it are STRICTLY increasing (no key is
+    present twice); every tower word of every level holds null or an item `b ≠ head` that is published — on `L`, or
+    marked on level 0 — and has a tower taller than that level; an item marked on level 0 is marked on every level of
+    its tower; the head is never marked. -/
+theorem C15_skiplist_structure (c : SkipList.Cfg) (hc : 0 < c.maxH) (hmt : c.markTest = true)
+    (sched : List (Tid × Act)) (s : SkipList.St) (os : List (Tid × Obs))
+    (h : (SkipList.model c).run (SkipList.init c) sched = some (s, os)) :
+    ∃ L, Michael.Chain (fun a => s.next a 0) (some 0) L ∧
+      L.Pairwise (fun a b => b ≠ 0 ∧ (a = 0 ∨ s.key a < s.key b)) ∧
+      (∀ a l b, s.next a l = some b → b ≠ 0 ∧ (b ∈ L ∨ s.mark b 0 = true) ∧ l < s.ht b) ∧
+      (∀ a l, s.mark a 0 = true → l < s.ht a → s.mark a l = true) ∧
+      s.mark 0 0 = false := by
+  obtain ⟨L, hl⟩ := SkipList.sinv_run hc hmt sched s os h
+  exact ⟨L, hl.g.chain, hl.g.sorted, hl.g.ptr, hl.g.mmono, hl.g.mark0_head⟩
+
+/-- The level-0 clauses of the executable predicate `SkipList.invB` (which `cdsdriver replay skiplist` evaluates on
+    every state of every replayed trace) hold in EVERY reachable state: the items reached from the head along level 0
+    (`levelNodes s 0`, computed by walking the pointers) have strictly increasing keys — no key twice —, are allocated
+    items; and an item marked on level 0 is marked on every level of its tower.  (The clauses of `invB` about the
+    UPPER levels — sorted, sub-list of the level below — are not proved.) -/
+theorem C15_skiplist_level0 (c : SkipList.Cfg) (hc : 0 < c.maxH) (hmt : c.markTest = true)
+    (sched : List (Tid × Act)) (s : SkipList.St) (os : List (Tid × Obs))
+    (h : (SkipList.model c).run (SkipList.init c) sched = some (s, os)) :
+    (SkipList.levelNodes s 0).Pairwise (fun a b => s.key a < s.key b) ∧
+    (∀ a, a ∈ SkipList.levelNodes s 0 → 0 < a ∧ a < s.cnt ∧ 0 < s.ht a) ∧
+    (∀ a, s.mark a 0 = true → ∀ l, l < s.ht a → s.mark a l = true) := by
+  obtain ⟨L, hl⟩ := SkipList.sinv_run hc hmt sched s os h
+  exact hl.level0
+
+/-- Erase once, step level (any state): level 0 of an item is marked only by the marking CAS of `try_remove_at` of a
+    thread erasing that item, which then answers `[1, val]` (`eMk … 0` is not reachable: the upper-level loop of
+    `try_remove_at` runs over levels ≥ 1 — `SkipList.TOk`). -/
+theorem C15_skiplist_mark_once {c : SkipList.Cfg} {s s' : SkipList.St} {t : Tid} {ev : Ev}
+    (h : SkipList.step c s t = some (s', ev)) (a : Nat) (h0 : s.mark a 0 = false) (h1 : s'.mark a 0 = true) :
+    (∃ k p pp ps, s.pc t = .e0Mk k a p pp ps ∧ s'.pc t = .eH1 k a (s.ht a - 1) pp ps) ∨
+    (∃ k sx pp ps, s.pc t = .eMk k a 0 sx pp ps) :=
+  SkipList.mark0_set_step h a h0 h1
 
 /-! ### Further runs of the machine -/
 
